@@ -473,6 +473,30 @@ Proof.
   apply NoDup_snoc; [assumption | apply mem_false_In; assumption].
 Qed.
 
+Lemma NoDup_map_filter : forall (l : list (N * list path)) (q : N * list path -> bool),
+    NoDup (map fst l) -> NoDup (map fst (filter q l)).
+Proof.
+  induction l as [|e r IH]; intros q H; cbn [filter map]; [constructor|].
+  cbn [map] in H. inversion H as [|y l' Hy Hl]; subst.
+  destruct (q e); [|apply IH; assumption]. cbn [map]. constructor; [|apply IH; assumption].
+  intros Hin. apply Hy. apply in_map_iff in Hin. destruct Hin as [z [Hz Hin]]. apply filter_In in Hin.
+  apply in_map_iff. exists z. tauto.
+Qed.
+
+Lemma NoDup_map_flat_sub : forall (l : list (N * list path)) (g : list path -> list path),
+    NoDup (map fst l) ->
+    NoDup (map fst (flat_map (fun e => match g (snd e) with [] => [] | l0 => [(fst e, l0)] end) l)).
+Proof.
+  induction l as [|[k v] r IH]; intros g H; cbn [flat_map map fst snd]; [constructor|].
+  cbn [map fst] in H. inversion H as [|y l' Hy Hl]; subst. rewrite map_app.
+  destruct (g v) as [|p0 ps]; cbn [map fst app]; [apply IH; assumption|].
+  constructor; [|apply IH; assumption].
+  intros Hin. apply Hy. apply in_map_iff in Hin. destruct Hin as [[k' v'] [Hk Hin]]. cbn [fst] in Hk; subst k'.
+  apply in_flat_map in Hin. destruct Hin as [[k2 v2] [Hin2 Hin3]]. cbn [fst snd] in Hin3.
+  destruct (g v2); [inversion Hin3|]. destruct Hin3 as [He|[]]. inversion He; subst.
+  apply in_map_iff. exists (k, v2). split; [reflexivity | assumption].
+Qed.
+
 Definition twf (t : table) : Prop := forall f r, t_get t f = Some r -> NoDup (map fst (rf_dests r)).
 
 Definition ins_rib (t : table) (f : fam) (x p i : N) (b : bool) : ribf :=
@@ -491,7 +515,7 @@ Qed.
 
 Lemma twf_step : forall t o, twf t -> twf (fst (t_step t o)).
 Proof.
-  intros t o H f r Hg. destruct o as [g|g x p i b|g]; cbn [t_step fst] in Hg.
+  intros t o H f r Hg. destruct o as [g|g x p i b|g|g x p i|g p]; cbn [t_step fst] in Hg.
   - unfold t_start in Hg. destruct (t_get t g) as [r0|] eqn:E; rewrite t_get_t_set in Hg;
       (destruct (f =? g) eqn:Ef; [|apply (H f r Hg)]); inversion Hg; subst; cbn [rf_dests];
       [apply (H g r0 E) | constructor].
@@ -503,6 +527,16 @@ Proof.
     + rewrite t_get_t_set in Hg. destruct (f =? g) eqn:Ef; [|apply (H f r Hg)].
       inversion Hg; subst. cbn [rf_dests]. apply (H g r0 E).
     + apply (H f r Hg).
+  - unfold t_remove in Hg. destruct (t_get t g) as [r0|] eqn:E; [|apply (H f r Hg)].
+    destruct (d_get (rf_dests r0) x) as [old|]; [|apply (H f r Hg)].
+    destruct (filter (same_path p i) old) as [|rm rest]; [apply (H f r Hg)|].
+    destruct (pa_filtered rm); cbn [fst] in Hg; rewrite t_get_t_set in Hg;
+      (destruct (f =? g); [|apply (H f r Hg)]); inversion Hg; subst; cbn [rf_dests];
+      (destruct (filter (fun q => negb (same_path p i q)) old);
+       [unfold d_remove; apply NoDup_map_filter; apply (H g r0 E) | apply d_keys_nodup; apply (H g r0 E)]).
+  - unfold t_drop in Hg. destruct (t_get t g) as [r0|] eqn:E; [|apply (H f r Hg)].
+    cbn [fst] in Hg. rewrite t_get_t_set in Hg. destruct (f =? g); [|apply (H f r Hg)].
+    inversion Hg; subst. cbn [rf_dests]. apply NoDup_map_flat_sub. apply (H g r0 E).
 Qed.
 
 Lemma loc_rib_keys : forall l x,
